@@ -110,4 +110,4 @@ for (cls, npar, ns) in NATIVE_GATES:
                 convention(h, cls, npar, ns, which)
             fn.__name__ = ""
             return fn
-        PROOFS.append(Proof(["C02", "C03"], f"{OPS}:Gate.apply", mk2(), name=f"Gate.apply-convention/{cls}/{which}"))
+        PROOFS.append(Proof("C02", f"{OPS}:Gate.apply", mk2(), name=f"Gate.apply-convention/{cls}/{which}"))
